@@ -1444,6 +1444,9 @@ class ParserElement(ABC):
             ['This', ' this', '', ' this sentence', ' is badly punctuated', '']
         """
         includeSeparators = includeSeparators or include_separators
+        if not self.keepTabs:
+            # scan_string reports locations in the tab-expanded copy; slice that same copy
+            instring = str(instring).expandtabs()
         last = 0
         for t, s, e in self.scan_string(instring, max_matches=maxsplit):
             yield instring[last:s]
